@@ -18,7 +18,7 @@ def conditions(tier):
     cs = []
     if tier == "quick":
         cs.append(Cond(M, "split_equals_reference", {"maxlen": 5}, T=120, reach=["two-cells"]))
-        cs.append(Cond(M, "cells_equal_reference", {"maxlen": 3, "maxind": 1, "maxtail": 2}, T=240))
+        cs.append(Cond(M, "cells_equal_reference", {"maxlen": 3, "maxind": 1, "maxtail": 2}, T=600))
         cs.append(Cond(M, "cell_round_trip", {"maxlen": 3}, T=240, reach=["linefeed-in-cell"]))
     else:
         for a in range(5):
